@@ -1,7 +1,8 @@
 (* C09 - legacy neighbourhood queries return exactly the cells/agents in range.
    ONLY statements closed by `exact`, with Print Assumptions beneath each. *)
 From Coq Require Import ZArith List Bool.
-From Mesa Require Import Common.ListX Generated.Tables Model.LegacyNbhd Proofs.LegacyNbhdProofs.
+From Mesa Require Import Common.ListX Common.Reach Generated.Tables Model.LegacyNbhd Proofs.LegacyNbhdProofs
+  Model.LegacyHexNet Proofs.LegacyHexNetProofs.
 Import ListNotations.
 Open Scope Z_scope.
 
@@ -42,6 +43,59 @@ Theorem C09_agents_exact : forall cs cells a,
   In a (agents_in cs cells) <-> exists p, In p cells /\ In a (cell_agents cs p).
 Proof. exact agents_in_spec. Qed.
 Print Assumptions C09_agents_exact.
+
+(* ---- legacy hex grids ---- *)
+(* The two adjacency tables extracted from the CURRENT source list, for every cell of the infinite
+   plane, exactly the cells whose hexagons touch it (distance 1 in cube coordinates, even-q layout) *)
+Theorem C09_hex_touching : forall p c, In c (hex_raw p) <-> hexdist p c = 1.
+Proof. exact hex_touching. Qed.
+Print Assumptions C09_hex_touching.
+
+(* get_neighborhood = the cells within r steps of (wrapped / clipped) touching hexagons, pos itself
+   present exactly when include_center is set; no duplicates; any width, height, radius *)
+Theorem C09_hex_is_ball : forall g q c,
+  In c (hex_compute g q) <->
+  (c <> q_pos q /\ within (hex_adj g) (Z.to_nat (q_r q)) (q_pos q) c) \/ (q_ic q = true /\ c = q_pos q).
+Proof. exact hex_compute_spec. Qed.
+Print Assumptions C09_hex_is_ball.
+
+Theorem C09_hex_nodup : forall g q, NoDup (hex_compute g q).
+Proof. exact hex_compute_nodup. Qed.
+Print Assumptions C09_hex_nodup.
+
+Theorem C09_hex_source_key_complete : hex_key_complete gen_hex_cache_key = true.
+Proof. vm_compute. reflexivity. Qed.
+Print Assumptions C09_hex_source_key_complete.
+
+Theorem C09_hex_cache_transparent : forall g qs,
+  hanswers gen_hex_cache_key g [] qs = map (fun '(p, i, r) => hex_compute g (hq p i r)) qs.
+Proof. intros g qs. apply hex_answers_history_independent. exact C09_hex_source_key_complete. Qed.
+Print Assumptions C09_hex_cache_transparent.
+
+(* ---- NetworkGrid: every simple graph, every node, every radius >= 1 ---- *)
+Theorem C09_network_ball : forall G node ic r c,
+  simple G -> 1 <= r ->
+  (In c (net_nbhd G node ic r) <->
+   (c <> node /\ within (g_adj G) (Z.to_nat r) node c) \/ (ic = true /\ c = node)).
+Proof. exact net_nbhd_spec. Qed.
+Print Assumptions C09_network_ball.
+
+(* the generic engine both use: level-wise expansion = nodes reachable in 1..r steps *)
+Theorem C09_ball_spec : forall (A : Type) (eqb : A -> A -> bool),
+  (forall a b, eqb a b = true <-> a = b) ->
+  forall (adj : A -> list A) r start c, In c (ball eqb adj r start) <-> within adj r start c.
+Proof. exact @ball_spec. Qed.
+Print Assumptions C09_ball_spec.
+
+Example C09_hex_example :
+  let g := {| g_w := 4; g_h := 3; g_torus := true |} in
+  length (hex_compute g (hq (1, 2) false 2)) = 11%nat.
+Proof. vm_compute. reflexivity. Qed.
+
+Example C09_net_example :
+  let G := [(0, [1]); (1, [0; 2]); (2, [1]); (3, [])] in
+  net_nbhd G 0 true 2 = [0; 1; 2] /\ net_nbhd G 3 true 5 = [3].
+Proof. vm_compute. split; reflexivity. Qed.
 
 (* non-vacuity: a 3x2 torus, radius 2 (larger than the grid allows without collisions) *)
 Example C09_example :
